@@ -258,9 +258,23 @@ class Rig:
         self.game.advance_timestep()
         self.emit("Tick", ok=True)
 
-    def power(self, ev: str, n: str):
-        tail = {"NodeOff": ["shutdown"], "NodeOn": ["startup"], "ServiceStop": ["service", "terminal", "stop"],
-                "ServiceStart": ["service", "terminal", "start"]}[ev]
+    def power(self, ev: str, n: str, svc_name: str = ""):
+        if ev in ("ServiceStop", "ServiceStart") and svc_name:
+            tail = ["service", svc_name, "stop" if ev == "ServiceStop" else "start"]
+        elif ev in ("ServiceStop", "ServiceStart"):
+            # one of the services a session depends on: the terminal, or (every third stop) the user session manager; a start
+            # starts whatever was stopped last on that node
+            self._svc_events = getattr(self, "_svc_events", 0) + (1 if ev == "ServiceStop" else 0)
+            stopped = getattr(self, "_stopped", {})
+            if ev == "ServiceStop":
+                svc = "user-session-manager" if self._svc_events % 3 == 0 else "terminal"
+                stopped[n] = svc
+            else:
+                svc = stopped.get(n, "terminal")
+            self._stopped = stopped
+            tail = ["service", svc, "stop" if ev == "ServiceStop" else "start"]
+        else:
+            tail = {"NodeOff": ["shutdown"], "NodeOn": ["startup"]}[ev]
         r = self.req(["network", "node", self.node_name(n)] + tail)
         self.emit(ev, node=n, ok=self._ok(r))
 
